@@ -205,14 +205,60 @@ pub fn run(op: &str, args: &[String]) -> Option<String> {
             let a2p = key!(arg_pub(args, 5));
             match ECIES::encrypt(&msg, &a, &bp, excl) {
                 // the object returned by encrypt is used as it is (it carries its memoised cipher keys)
+                Ok(c) => {
+                    let before = c.to_bytes();
+                    let first = format!(
+                        "{},{},{},{},{},{}",
+                        show_msg(ECIES::decrypt(&c, &b, &ap)),
+                        show_msg(ECIES::decrypt(&c, &b2, &ap)),
+                        show_msg(ECIES::decrypt(&c, &b, &a2p)),
+                        show_msg(b.decrypt_message(&c, &ap)),
+                        show_msg(b2.decrypt_message(&c, &ap)),
+                        show_msg(b.decrypt_message(&c, &a2p))
+                    );
+                    let again = show_msg(ECIES::decrypt(&c, &b, &ap));
+                    let same = (c.to_bytes() == before) as u8;
+                    let parsed = match ECIESCiphertext::from_bytes(&before, !excl) {
+                        Ok(c2) => format!(
+                            "{},{},{}",
+                            show_msg(ECIES::decrypt(&c2, &b2, &ap)),
+                            show_msg(ECIES::decrypt(&c2, &b, &ap)),
+                            if c2.get_cipher_keys().is_none() { "none" } else { "some" }
+                        ),
+                        Err(_) => "ERR".into(),
+                    };
+                    format!("{},{},{},{}", first, again, same, parsed)
+                }
+                Err(_) => "ERR".into(),
+            }
+        }
+        "ecies.key_history" => {
+            if args.len() != 2 {
+                return Some("BADARG".into());
+            }
+            let msg = arg!(arg_bytes(args, 1));
+            let k = key!(arg_priv(args, 0));
+            let pb = |k: &PrivateKey| k.to_public_key().and_then(|p| p.to_bytes()).map(hex::encode).unwrap_or_else(|_| "ERR".into());
+            let p1 = pb(&k);
+            let k2 = k.compress_public_key(false);
+            let p2 = pb(&k2);
+            let k3 = k2.compress_public_key(true);
+            let p3 = pb(&k3);
+            let own2 = match k2.to_public_key() {
+                Ok(p) => p,
+                Err(_) => return Some("ERR".into()),
+            };
+            match k2.encrypt_message(&msg) {
                 Ok(c) => format!(
-                    "{},{},{},{},{},{}",
-                    show_msg(ECIES::decrypt(&c, &b, &ap)),
-                    show_msg(ECIES::decrypt(&c, &b2, &ap)),
-                    show_msg(ECIES::decrypt(&c, &b, &a2p)),
-                    show_msg(b.decrypt_message(&c, &ap)),
-                    show_msg(b2.decrypt_message(&c, &ap)),
-                    show_msg(b.decrypt_message(&c, &a2p))
+                    "OK:{};{};{};{};{}",
+                    p1,
+                    p2,
+                    p3,
+                    show_bytes(&c.to_bytes()),
+                    match k3.decrypt_message(&c, &own2) {
+                        Ok(p) => show_bytes(&p),
+                        Err(_) => "ERR".into(),
+                    }
                 ),
                 Err(_) => "ERR".into(),
             }
